@@ -108,6 +108,22 @@ def check_chain(seq_json, cs, ctx=None):
                 fails.append(("chain/case-insensitive-result-holds-case-variants-in-two-records", f"{where}: {p!r} and {q!r} in different records"))
     if record_set(res) != exp.record_set():
         fails.append(("chain/records-differ-from-reference-fold", f"{where}: {sorted(map(repr, record_set(res)))} vs reference {sorted(map(repr, exp.record_set()))}"))
+    # restriction of a converter that was reached through merges (not only of freshly constructed ones)
+    if not fails:
+        for p in sorted(allp):
+            try:
+                sub = res.get_subconverter([p])
+            except Exception as e:  # noqa
+                fails.append(("sub-of-chained/raises/" + type(e).__name__, f"{where}.get_subconverter([{p!r}])"))
+                break
+            want = model_sub(exp, {p})
+            if record_set(sub) != want.record_set():
+                fails.append(("sub-of-chained/records-differ", f"{where}.get_subconverter([{p!r}]) keeps {sorted(r.prefix for r in sub.records)}, expected {sorted(r.prefix for r in want.records)}"))
+                break
+            if sub.expand(p + ":1") != res.expand(p + ":1"):
+                fails.append(("sub-of-chained/answers-differ-from-parent", f"{where}.get_subconverter([{p!r}]): expand({p + ':1'!r})"))
+        if ctx is not None:
+            ctx.count("subconverters_of_chained")
     if len(seqs) == 1 and cs:
         if record_set(res) != record_set(convs[0]) or observe(res, QS, QP) != observe(convs[0], QS, QP):
             fails.append(("chain/singleton-chain-not-equivalent", f"{where}: chain([c]) differs from c"))
